@@ -33,7 +33,8 @@ type Obligation struct {
 	PreRes     SolveResult
 
 	// result
-	Res SolveResult
+	Res   SolveResult
+	Cross string // thorough tier: the second solver that independently answered unsat
 }
 
 type Probe struct {
